@@ -29,6 +29,16 @@ Theorem C02_dependency_complete_ir : forall E c c' ds, analyze_code_property_dep
 Proof. intros E c c' ds H. exact (proj1 (dependency_complete E c c' ds H)). Qed.
 Print Assumptions C02_dependency_complete_ir.
 
+(* the executable checker run on the IMPLEMENTATION's own IR dumps (vlib/c02.py, IR leg) decides exactly the coverage predicate, with signals
+   identified by class, name and argument types (what the C++ connect is written from) *)
+Theorem C02_ir_checker_sound : forall E c, code_covered_b E c = true <->
+  Forall (fun b => covered_sig E (c_sdeps c) 0 (c_nobs c) (repeat None (length (c_locals c))) None (b_stmts b)) (c_blocks c).
+Proof. exact code_covered_b_sound. Qed.
+Print Assumptions C02_ir_checker_sound.
+Theorem C02_coverage_implies_checker : forall E deps lo hi l known prev, covered E deps lo hi known prev l -> covered_b E deps lo hi known prev l = true.
+Proof. intros E deps lo hi l known prev H. apply covered_b_sound, covered_covered_sig, H. Qed.
+Print Assumptions C02_coverage_implies_checker.
+
 (* coverage is necessary: a binding not connected to a key it reads goes stale *)
 Theorem C02_stale_without_coverage_refuted :
   exists (eval : (nat -> nat) -> nat) (connected : (nat -> nat) -> list nat) (w : nat -> nat) (h : list (nat * nat)),
